@@ -29,6 +29,16 @@ func init() {
 		e.sc.assume(st.reach, "(> (i_val "+v.T+") 0)")
 		return v
 	}
+	// logrus Panic*/Fatal* do not return: the path ends there (deliberate abort, not followed further)
+	abort := func(e *Exec, fr *Frame, st *State, args []Val, cc *ssa.CallCommon, pos token.Pos) Val {
+		e.sc.used["log.Panic*/log.Fatal* end the path (deliberate abort of the goroutine or process; what follows is not reached)"] = true
+		st.reach = "false"
+		return Val{T: "0"}
+	}
+	for _, n := range []string{"Panic", "Panicf", "Panicln", "Fatal", "Fatalf", "Fatalln"} {
+		models["github.com/sirupsen/logrus."+n] = abort
+		modelEffects["github.com/sirupsen/logrus."+n] = func(e *Exec, cc *ssa.CallCommon) []string { return nil }
+	}
 	models["errors.New"] = nonNilErr
 	models["fmt.Errorf"] = nonNilErr
 
